@@ -791,7 +791,14 @@ func (s *rpcSvc) request(c *RPCCase, id string) (*http.Request, bool) {
 			gz := wire.Gzip(b)
 			req.Body, req.ContentLength = io.NopCloser(bytes.NewReader(gz)), int64(len(gz))
 		}
-		for k, v := range map[string]string{"Content-Type": c.ContentType, "Accept": c.Accept, "Content-Encoding": c.ContentEncoding} {
+		ce := c.ContentEncoding
+		if ce == "gzip-garbage" {
+			ce = "gzip"
+			garbage := []byte("this is not a gzip stream \x00\x01\x02")
+			req.Body, req.ContentLength = io.NopCloser(bytes.NewReader(garbage)), int64(len(garbage))
+			bodyless = false
+		}
+		for k, v := range map[string]string{"Content-Type": c.ContentType, "Accept": c.Accept, "Content-Encoding": ce} {
 			switch v {
 			case "":
 			case "-":
@@ -1000,7 +1007,10 @@ func (s *rpcSvc) check(c *RPCCase, o *outcome) (vs []viol, obs map[string]int) {
 	// A unary call that is already over when it is dispatched fails in the
 	// request decode step, in front of the interceptor (as in grpc-go).
 	decodeFailed := c.unary() && c.expired() && nUI == 0 && (pc == "grpc" || pc == "web")
-	if c.unary() && nUI == 0 && (c.ContentType != "" || c.Accept != "" || c.ContentEncoding != "") && (count(ev, "h", "recv-err") > 0 || c.proxied()) {
+	// a request the mux refuses before dispatch (its Content-Encoding cannot be
+	// undone: body-less or garbage under gzip): no interceptor obligation
+	refusedBeforeDispatch := (c.ContentEncoding == "gzip-garbage" || (c.ContentEncoding == "gzip" && o.Bodyless)) && count(ev, "h", "enter") == 0 && count(ev, "h", "glue-enter") == 0
+	if c.unary() && nUI == 0 && (c.ContentType != "" || c.Accept != "" || c.ContentEncoding != "") && (count(ev, "h", "recv-err") > 0 || c.proxied() || refusedBeforeDispatch) {
 		// the request could not be decoded (no codec for the media type):
 		// generated code fails in front of the interceptor; for a proxied
 		// method that step is inside larking's forwarder
@@ -1017,7 +1027,7 @@ func (s *rpcSvc) check(c *RPCCase, o *outcome) (vs []viol, obs map[string]int) {
 			add(tp+":unary-interceptor-fullmethod", fmt.Sprintf("UnaryServerInfo.FullMethod = %q, want %q", e.Info, full))
 		}
 	} else {
-		if siOn && nSI != 1 {
+		if siOn && nSI != 1 && !(nSI == 0 && refusedBeforeDispatch) {
 			add(fmt.Sprintf("%s:stream-interceptor-calls=%d:%s", tp, min(nSI, 2), shape), fmt.Sprintf("streaming RPC %s passed through the stream interceptor %d times", full, nSI))
 		}
 		if nUI != 0 {
@@ -1549,6 +1559,9 @@ func (g *c18run) group(base RPCCase, optsList []Opts) {
 			if c.MaxSend > 0 {
 				endKind = fmt.Sprintf("/max-send=%d,out=%v", c.MaxSend, c.Out)
 			}
+			if c.ContentType != "" || c.Accept != "" || c.ContentEncoding != "" {
+				endKind += fmt.Sprintf("/ct=%q,accept=%q,ce=%q", c.ContentType, c.Accept, c.ContentEncoding)
+			}
 			if c.ended() {
 				endKind = fmt.Sprintf("/ended(timeout=%s,wait=%v,mid=%v,pre=%v)", c.Timeout, c.WaitCtx, c.CancelMid, c.PreCancel)
 			}
@@ -1783,13 +1796,8 @@ func RunC18(r *mon.Run) {
 				if p == "http-get" || p == "http-nobody" {
 					in = nil
 				}
-				for _, ce := range []string{"identity", "gzip", "deflate", "br", "zstd", "x-unknown", "gzip, br", "GZIP", "compress", ","} {
-					if in == nil && (ce == "gzip") {
-						// On the pinned tree a body-less request that names gzip
-						// fails in Decompress (EOF) between the stats Begin and
-						// the only End: reported to the lead, not run here.
-						continue
-					}
+				// "gzip-garbage": Content-Encoding: gzip over bytes that are not gzip
+				for _, ce := range []string{"identity", "gzip", "gzip-garbage", "deflate", "br", "zstd", "x-unknown", "gzip, br", "GZIP", "compress", ","} {
 					jobs = append(jobs, job{RPCCase{Part: "rpc", Target: target, Proto: p, Method: method, In: in, Out: out, ContentEncoding: ce}, encOpts})
 				}
 			}
